@@ -681,12 +681,14 @@ def value_use(name):
         """Sets the value"""
         if not isinstance(value, Value):
             raise TypeError(f"Expecting a Value instance, but got {value}")
-        # If value was already set, remove usage
-        if name in self._var_map:
-            self.del_use(self._var_map[name])
+        # If value was already set, remove usage (unless another operand
+        # still refers to the same value):
+        old_value = self._var_map.get(name)
 
         # Place the value in the var map:
         self._var_map[name] = value
+        if old_value is not None and not self.references(old_value):
+            self.del_use(old_value)
 
         # Add usage:
         self.add_use(value)
@@ -730,17 +732,23 @@ class Instruction:
                 f"Cannot delete {self} since it is still used by {uses}"
             )
 
+    def references(self, value):
+        """Test if one of the operands of this instruction is value."""
+        return any(v is value for v in self._var_map.values())
+
     def replace_use(self, old, new):
         """replace value usage 'old' with new value, updating the def-use
         information.
         """
         # TODO: update reference
         # assert old in self._var_map.values()
+        # Note that a value may be used more than once by an instruction.
         for name in self._var_map:
             if self._var_map[name] is old:
-                self.del_use(old)
                 self._var_map[name] = new
                 self.add_use(new)
+        if old in self.uses and not self.references(old):
+            self.del_use(old)
 
     def remove_from_block(self):
         for use in list(self.uses):
@@ -880,13 +888,17 @@ class FunctionCall(LocalValue):
         for arg in self.arguments:
             self.add_use(arg)
 
+    def references(self, value):
+        return super().references(value) or any(
+            a is value for a in self.arguments
+        )
+
     def replace_use(self, old, new):
+        for idx, argument in enumerate(self.arguments):
+            if argument is old:
+                self.arguments[idx] = new
+                self.add_use(new)
         super().replace_use(old, new)
-        if old in self.arguments:
-            idx = self.arguments.index(old)
-            self.del_use(old)
-            self.arguments[idx] = new
-            self.add_use(new)
 
     def __str__(self):
         args = ", ".join(arg.name for arg in self.arguments)
@@ -911,13 +923,17 @@ class ProcedureCall(Instruction):
         for arg in self.arguments:
             self.add_use(arg)
 
+    def references(self, value):
+        return super().references(value) or any(
+            a is value for a in self.arguments
+        )
+
     def replace_use(self, old, new):
+        for idx, argument in enumerate(self.arguments):
+            if argument is old:
+                self.arguments[idx] = new
+                self.add_use(new)
         super().replace_use(old, new)
-        if old in self.arguments:
-            idx = self.arguments.index(old)
-            self.del_use(old)
-            self.arguments[idx] = new
-            self.add_use(new)
 
     def __str__(self):
         args = ", ".join(arg.name for arg in self.arguments)
@@ -1015,14 +1031,18 @@ class Phi(LocalValue):
         )
         return f"{self.ty} {self.name} = phi {inputs}"
 
+    def references(self, value):
+        return any(v is value for v in self.inputs.values())
+
     def replace_use(self, old, new):
         """Replace old value reference by new value reference"""
         assert old in self.inputs.values()
         for inp in self.inputs:
-            if self.inputs[inp] == old:
-                self.del_use(old)
+            if self.inputs[inp] is old:
                 self.inputs[inp] = new
                 self.add_use(new)
+        if not self.references(old):
+            self.del_use(old)
 
     def set_incoming(self, block, value):
         """Set the value for the phi node when entering through block"""
@@ -1030,9 +1050,10 @@ class Phi(LocalValue):
             raise ValueError(
                 f"Type mismatch {value.ty} where {self.ty} was expected"
             )
-        if block in self.inputs:
-            self.del_use(self.inputs[block])
+        old_value = self.inputs.get(block)
         self.inputs[block] = value
+        if old_value is not None and not self.references(old_value):
+            self.del_use(old_value)
         self.add_use(value)
 
     def get_value(self, block):
@@ -1042,7 +1063,8 @@ class Phi(LocalValue):
     def del_incoming(self, block):
         """Remove incoming branch from this phi node and delete the usage"""
         value = self.inputs.pop(block)
-        self.del_use(value)
+        if not self.references(value):
+            self.del_use(value)
 
 
 class Alloc(LocalValue):
@@ -1203,13 +1225,19 @@ class InlineAsm(Instruction):
         self.output_values.append(value)
         self.add_use(value)
 
+    def references(self, value):
+        return (
+            super().references(value)
+            or any(v is value for v in self.input_values)
+            or any(v is value for v in self.output_values)
+        )
+
     def replace_use(self, old, new):
+        for idx, input_value in enumerate(self.input_values):
+            if input_value is old:
+                self.input_values[idx] = new
+                self.add_use(new)
         super().replace_use(old, new)
-        if old in self.input_values:
-            idx = self.input_values.index(old)
-            self.del_use(old)
-            self.input_values[idx] = new
-            self.add_use(new)
 
     def __str__(self):
         return f"asm ({self.template})"
